@@ -184,7 +184,7 @@ ASSUMPTIONS = [
     "policy parameters: sleep, max_sleep in [128*eps, 1000], exponent in [1, 8], and in one program (0, 8] with sleep*exponent >= 128*eps; max_attempts in {1,2,3}",
     "'exactly then' is asserted only with one submission (absent contention) as t_start <= t_end + delay + 48*eps",
 ]
-BUDGET = {"quick": 150.0, "thorough": 1500.0}
+BUDGET = {"quick": 150.0, "thorough": 600.0}
 BOUNDS_TEXT = {
     "quick": "P<=1 preemptions; 1 submission on thread_pool(2) and sync; max_attempts<=3; scripts of 4 outcomes per invocation; raising policy at attempt 1/2",
     "thorough": "P<=2; 2 concurrent submissions; exponent in (0,8]",
